@@ -255,7 +255,7 @@ func HarnessC14Serve() {
 		if se.hFailed {
 			vReach("c20:handler-failed-while-serving")
 			// (unless the client vanished in the meantime: then there is nobody to tell)
-			vAssert(vhCount(t.calls, "send:finished") == 1 || t.down || t.rxErrs > 0, "c20:handler-error-finishes-the-session")
+			vAssert(vhCount(t.calls, "send:finished")+t.txFailFin == 1 || t.down || t.rxErrs > 0, "c20:handler-error-finishes-the-session")
 		}
 	}
 	vAssert(vThreadsLive() <= 0, "c14:no-goroutine-left-serving-the-connection")
